@@ -125,6 +125,9 @@ pub enum SOp {
     HasNews { n: usize, heads: Vec<(usize, u64)> },
     /// the author's secret key is imported into the store's authors table (nothing observable changes)
     ImportAuthor { a: usize },
+    /// several remote inserts through *one* opened replica (as one reconciliation message or one gossip
+    /// burst delivers them): state that lives as long as the replica handle is shared by them
+    PutBatch { n: usize, entries: Vec<(usize, Vec<u8>, Option<usize>, u64)> },
     Reopen,
     /// C18: close the file store, delete derived tables with plain redb, open it again
     DropDerived {
@@ -665,6 +668,29 @@ impl<'a> StoreWorld<'a> {
                     Err(e) => format!("err:{e}"),
                 };
                 self.lines.push(Line::model(format!("tsetpolicy 1 {} {}", self.nshex(*n), pol.tok()), imp));
+            }
+            SOp::PutBatch { n, entries } => {
+                let ns = &self.keys.namespaces[*n];
+                let was_open = self.open[*n];
+                match self.rs.store.open_replica(&ns.id()) {
+                    Ok(mut r) => {
+                        for (a, key, c, ts) in entries {
+                            let e = make_entry(ns, &self.keys.authors[*a], key, *c, *ts);
+                            let res = self.rt.block_on(r.insert_remote_entry(e.clone(), PEER, ContentStatus::Complete));
+                            self.lines.push(Line::model(format!("tputns 1 {}", honest_tok(&e)), insert_result(res)));
+                        }
+                        drop(r);
+                        if !was_open {
+                            self.rs.store.close_replica(ns.id());
+                        }
+                    }
+                    Err(_) => {
+                        for (a, key, c, ts) in entries {
+                            let e = make_entry(ns, &self.keys.authors[*a], key, *c, *ts);
+                            self.lines.push(Line::model(format!("tputns 1 {}", honest_tok(&e)), "err:not-found"));
+                        }
+                    }
+                }
             }
             SOp::ImportAuthor { a } => {
                 self.rs.store.import_author(self.keys.authors[*a].clone())?;
